@@ -3,3 +3,5 @@ open Fzf.Props.C05
 #print axioms C05_checked_ok_imp_junk_indep
 #print axioms C05_v2_junk_independent
 #print axioms C05_v2_two_slabs_agree
+#print axioms C05_sublist_restriction
+#print axioms C05_renumbering_invariant
